@@ -30,10 +30,10 @@ def run(ctx):
     cats = {"PKGO"}
     rep = progcheck.Replay(ctx, cats)
     c01.nonvacuous(ctx, "PackageOnly", [("FirstLineOnly", "single", ("Exact",)), ("NoNameMatch", "single", ("Exact",)), ("TypeHidesMethods", "single", ("Exact",)), ("ExportedOnly", "single", ("Exact",)), ("SamePosOnce", "single", ("Exact",)), ("MethodKeyWithoutType", "seq2", ("Exact",)),
-                                        ("NoDedup", "seq2", ("Exact",))], cfg)
+                                        ("NoDedup", "seq2", ("Exact",)), ("NoUnalias", "spell", ("Exact",))], cfg)
     total = 0
     real_items = []
-    for mode in ("single", "seq2", "seq3"):
+    for mode in ("single", "seq2", "seq3", "spell"):
         scs, r = progcheck.tlc_scenarios(ctx, "PackageOnly", cfg(mode), "c04_" + mode, coverage=(mode == "seq2"))
         total += len(scs)
         items = []
